@@ -51,6 +51,7 @@ func runC09(c *Ctx) {
 
 	queryTable(c, "C09.query-table")
 	addAtomic(c, "C09.add-atomic")
+	ctreeExposure(c, "C09.exposure")
 	// ---- sorted
 	_, nRoots := mapOrderAudit(c, "C09.sorted", []*ssa.Function{wis, str}, true)
 	c.Floor("C09.sorted/functions-ranging-over-children", nRoots, 2)
